@@ -18,6 +18,7 @@ single-line printable text with colons, hashes, commas, quotes, trimmed, without
 modes plain .csv, compress=True under x.csv / x.zip / x / x.y.csv, archive member in a sub-folder; float
 formats %0.5f %0.2f %0.8e; float, int and text columns. Non-trivial = round trip performed and compared.
 """
+import os
 import re
 import shutil
 import string
@@ -86,7 +87,7 @@ def body(ctx):
     rng = ctx.rng
     lean = ctx.lean
     reqs, checks = [], []
-    work = C.BUILD / f"c09-work-{ctx.seed}-{ctx.tier}"
+    work = C.BUILD / f"c09-work-{ctx.seed}-{ctx.tier}-{os.getpid()}"   # per process: two runs of this check may overlap
     shutil.rmtree(work, ignore_errors=True)
     work.mkdir(parents=True)
     src = work / "script.py"
